@@ -204,7 +204,7 @@ func HandleGetFileInfo(cc *hotline.ClientConn, t *hotline.Transaction) (res []ho
 	fileName := t.GetField(hotline.FieldFileName).Data
 	filePath := t.GetField(hotline.FieldFilePath).Data
 
-	fullFilePath, err := hotline.ReadPath(cc.FileRoot(), filePath, fileName)
+	fullFilePath, err := hotline.ReadTargetPath(cc.FileRoot(), filePath, fileName)
 	if err != nil {
 		return res
 	}
@@ -253,7 +253,7 @@ func HandleSetFileInfo(cc *hotline.ClientConn, t *hotline.Transaction) (res []ho
 	fileName := t.GetField(hotline.FieldFileName).Data
 	filePath := t.GetField(hotline.FieldFilePath).Data
 
-	fullFilePath, err := hotline.ReadPath(cc.FileRoot(), filePath, fileName)
+	fullFilePath, err := hotline.ReadTargetPath(cc.FileRoot(), filePath, fileName)
 	if err != nil {
 		return res
 	}
@@ -348,7 +348,7 @@ func HandleDeleteFile(cc *hotline.ClientConn, t *hotline.Transaction) (res []hot
 	fileName := t.GetField(hotline.FieldFileName).Data
 	filePath := t.GetField(hotline.FieldFilePath).Data
 
-	fullFilePath, err := hotline.ReadPath(cc.FileRoot(), filePath, fileName)
+	fullFilePath, err := hotline.ReadTargetPath(cc.FileRoot(), filePath, fileName)
 	if err != nil {
 		return res
 	}
@@ -386,7 +386,7 @@ func HandleDeleteFile(cc *hotline.ClientConn, t *hotline.Transaction) (res []hot
 func HandleMoveFile(cc *hotline.ClientConn, t *hotline.Transaction) (res []hotline.Transaction) {
 	fileName := string(t.GetField(hotline.FieldFileName).Data)
 
-	filePath, err := hotline.ReadPath(cc.FileRoot(), t.GetField(hotline.FieldFilePath).Data, t.GetField(hotline.FieldFileName).Data)
+	filePath, err := hotline.ReadTargetPath(cc.FileRoot(), t.GetField(hotline.FieldFilePath).Data, t.GetField(hotline.FieldFileName).Data)
 	if err != nil {
 		return res
 	}
@@ -1281,7 +1281,7 @@ func HandleDownloadFile(cc *hotline.ClientConn, t *hotline.Transaction) (res []h
 		dataOffset = int64(binary.BigEndian.Uint32(frd.ForkInfoList[0].DataSize[:]))
 	}
 
-	fullFilePath, err := hotline.ReadPath(cc.FileRoot(), filePath, fileName)
+	fullFilePath, err := hotline.ReadTargetPath(cc.FileRoot(), filePath, fileName)
 	if err != nil {
 		return res
 	}
@@ -1768,7 +1768,7 @@ func HandleMakeAlias(cc *hotline.ClientConn, t *hotline.Transaction) (res []hotl
 	filePath := t.GetField(hotline.FieldFilePath).Data
 	fileNewPath := t.GetField(hotline.FieldFileNewPath).Data
 
-	fullFilePath, err := hotline.ReadPath(cc.FileRoot(), filePath, fileName)
+	fullFilePath, err := hotline.ReadTargetPath(cc.FileRoot(), filePath, fileName)
 	if err != nil {
 		return res
 	}
